@@ -22,7 +22,7 @@ int rwxLines(std::string* first) {
 }
 
 struct Hist {
-	Rng rng; randomx_flags hw; unsigned tid; bool snapshots;
+	Rng rng; randomx_flags hw; unsigned tid; bool snapshots; randomx_dataset* ds = nullptr; uint64_t fullVms = 0; int firstVmFlags = -1;
 	std::vector<std::string> log; uint64_t hashes = 0, snaps = 0; std::string rwxSeen;
 	std::vector<std::vector<uint8_t>> keys;
 	Hist(uint64_t seed, unsigned shard, unsigned t, bool snap) : rng(seed, 0xc16 + t, shard), tid(t), snapshots(snap) { hw = api::getFlags(); for (int i = 0; i < 3; ++i) keys.push_back(cases::makeKey(rng, 30 + i)); }
@@ -32,6 +32,7 @@ struct Hist {
 		if ((hw & RANDOMX_FLAG_HARD_AES) && rng.chance(1, 2)) f |= RANDOMX_FLAG_HARD_AES;
 		if (rng.chance(1, 4)) f |= RANDOMX_FLAG_LARGE_PAGES;
 		if (rng.chance(1, 2)) f |= RANDOMX_FLAG_V2;
+		if (ds && rng.chance(2, 5)) f |= RANDOMX_FLAG_FULL_MEM;
 		return f;
 	}
 	void run(unsigned ops) {
@@ -41,15 +42,15 @@ struct Hist {
 		uint8_t out[32]; const uint8_t in[] = "C16 input";
 		// every history begins with a usable cache and one secure VM, then random operations
 		{ int f = rng.chance(1, 2) ? RANDOMX_FLAG_JIT : 0; log.push_back("alloc_cache(" + flagsName(f) + ")"); cache[0] = api::allocCache((randomx_flags)f); snap(); int k = (int)rng.below(3); log.push_back("init_cache(k" + std::to_string(k) + ")"); api::initCache(cache[0], cases::nn(keys[k]), keys[k].size()); ckey[0] = k; snap();
-		  int vf = secureFlags(); log.push_back("create_vm(" + flagsName(vf) + ")"); vm[0] = api::createVm((randomx_flags)vf, cache[0], nullptr); if (!vm[0]) R.harnessFail("create secure vm"); vcache[0] = 0; valid[0] = true; snap(); }
+		  int vf = firstVmFlags >= 0 ? firstVmFlags : secureFlags(); log.push_back("create_vm(" + flagsName(vf) + ")"); vm[0] = api::createVm((randomx_flags)vf, (vf & RANDOMX_FLAG_FULL_MEM) ? nullptr : cache[0], (vf & RANDOMX_FLAG_FULL_MEM) ? ds : nullptr); if (!vm[0]) R.harnessFail("create secure vm"); vcache[0] = (vf & RANDOMX_FLAG_FULL_MEM) ? -2 : 0; valid[0] = true; if (vf & RANDOMX_FLAG_FULL_MEM) ++fullVms; snap(); }
 		for (unsigned o = 0; o < ops; ++o) {
 			const unsigned w = (unsigned)rng.below(100); const int s = (int)rng.below(2);
 			if (w < 14 && !cache[s]) { int f = (rng.chance(1, 2) ? RANDOMX_FLAG_JIT : 0) | (rng.chance(1, 6) ? RANDOMX_FLAG_LARGE_PAGES : 0); log.push_back("alloc_cache(" + flagsName(f) + ")"); cache[s] = api::allocCache((randomx_flags)f); snap(); }
 			else if (w < 30 && cache[s]) { int k = (int)rng.below(3); log.push_back("init_cache(k" + std::to_string(k) + ")"); api::initCache(cache[s], cases::nn(keys[k]), keys[k].size()); if (ckey[s] != k) for (int v = 0; v < 2; ++v) if (vcache[v] == s) valid[v] = false; ckey[s] = k; snap(); }
-			else if (w < 44 && !vm[s] && cache[s & 1] && ckey[s & 1] >= 0) { int f = secureFlags(); log.push_back("create_vm(" + flagsName(f) + ")"); vm[s] = api::createVm((randomx_flags)f, cache[s & 1], nullptr); if (!vm[s]) R.harnessFail("create secure vm"); vcache[s] = s & 1; valid[s] = true; snap(); }
+			else if (w < 44 && !vm[s] && cache[s & 1] && ckey[s & 1] >= 0) { int f = secureFlags(); log.push_back("create_vm(" + flagsName(f) + ")"); vm[s] = api::createVm((randomx_flags)f, (f & RANDOMX_FLAG_FULL_MEM) ? nullptr : cache[s & 1], (f & RANDOMX_FLAG_FULL_MEM) ? ds : nullptr); if (!vm[s]) R.harnessFail("create secure vm"); vcache[s] = (f & RANDOMX_FLAG_FULL_MEM) ? -2 : (s & 1); valid[s] = true; if (f & RANDOMX_FLAG_FULL_MEM) ++fullVms; snap(); }
 			else if (w < 70 && vm[s] && valid[s]) { log.push_back("hash"); api::hash(vm[s], in, sizeof in, out); ++hashes; snap(); }
 			else if (w < 78 && vm[s] && valid[s]) { log.push_back("batch"); api::hashFirst(vm[s], in, sizeof in); snap(); api::hashNext(vm[s], in, 3, out); snap(); api::hashLast(vm[s], out); _mm_setcsr(0x1F80); hashes += 2; snap(); }
-			else if (w < 88 && vm[s]) { int c = (int)rng.below(2); if (cache[c] && ckey[c] >= 0) { log.push_back("set_cache"); api::setCache(vm[s], cache[c]); vcache[s] = c; valid[s] = true; snap(); } }
+			else if (w < 88 && vm[s]) { int c = (int)rng.below(2); if (vcache[s] == -2) { log.push_back("set_dataset"); api::setDataset(vm[s], ds); snap(); } else if (cache[c] && ckey[c] >= 0) { log.push_back("set_cache"); api::setCache(vm[s], cache[c]); vcache[s] = c; valid[s] = true; snap(); } }
 			else if (w < 92 && vm[s]) { log.push_back("switch_version"); ip::Api a("setFlagV2"); if (rng.chance(1, 2)) vm[s]->setFlagV2(); else vm[s]->clearFlagV2(); }
 			else if (w < 96 && vm[s]) { log.push_back("destroy_vm"); api::destroyVm(vm[s]); vm[s] = nullptr; vcache[s] = -1; snap(); }
 			else if (cache[s]) { bool bound = false; for (int v = 0; v < 2; ++v) if (vm[v] && vcache[v] == s) bound = true; if (!bound) { log.push_back("release_cache"); api::releaseCache(cache[s]); cache[s] = nullptr; ckey[s] = -1; snap(); } }
@@ -81,10 +82,24 @@ RXV_SUBCOMMAND(c16) {
 		ip::clearEvents();
 	}
 
+	// shards given --dataset 1 build one real dataset so that the secure full-memory VM classes take part
+	randomx_dataset* dataset = nullptr;
+	if (args.num("dataset", 0)) {
+		const char k[] = "c16 dataset key"; randomx_cache* c = api::allocCache(RANDOMX_FLAG_JIT); api::initCache(c, k, sizeof k - 1);
+		dataset = api::allocDataset(RANDOMX_FLAG_DEFAULT); if (!dataset || !c) R.harnessFail("dataset");
+		std::vector<std::thread> th; const unsigned long total = randomx_dataset_item_count();
+		for (unsigned t = 0; t < 16; ++t) th.emplace_back([=] { api::initDataset(dataset, c, total * t / 16, total * (t + 1) / 16 - total * t / 16); });
+		for (auto& t : th) t.join();
+		api::releaseCache(c); ip::clearEvents();
+		R.floorKey("secure_full_memory_vms");
+	}
 	for (uint64_t h = 0; h < nHist; ++h) {
 		const unsigned threads = (h % 3 == 2) ? 2 + (unsigned)((args.shard + h) % 3) : 1;
 		std::vector<std::unique_ptr<Hist>> hs;
-		for (unsigned t = 0; t < threads; ++t) hs.emplace_back(new Hist(args.seed * 1000 + h, args.shard, t, threads == 1 || t == 0));
+		for (unsigned t = 0; t < threads; ++t) { hs.emplace_back(new Hist(args.seed * 1000 + h, args.shard, t, threads == 1 || t == 0)); hs.back()->ds = dataset;
+			// the first VM of the history walks through every secure class deterministically (the rest is random)
+			const uint64_t g = (args.shard + args.nshards * h) * 4 + t; int f = RANDOMX_FLAG_SECURE | ((g & 1) ? 0 : RANDOMX_FLAG_JIT) | ((g & 2) && (hs.back()->hw & RANDOMX_FLAG_HARD_AES) ? RANDOMX_FLAG_HARD_AES : 0) | ((g & 4) ? RANDOMX_FLAG_LARGE_PAGES : 0) | ((g & 8) ? RANDOMX_FLAG_V2 : 0) | ((dataset && !(g & 16)) ? RANDOMX_FLAG_FULL_MEM : 0);
+			if (g % 3 != 2) f |= RANDOMX_FLAG_JIT; hs.back()->firstVmFlags = f; }
 		R.setCase("{\"history\":" + std::to_string(h) + ",\"threads\":" + std::to_string(threads) + "}");
 		const ip::WxStat s0 = ip::wxStats(ip::TAG_SECURE_VM), c0 = ip::wxStats(ip::TAG_CACHE);
 		if (threads == 1) hs[0]->run(ops);
@@ -92,7 +107,7 @@ RXV_SUBCOMMAND(c16) {
 		const ip::WxStat s1 = ip::wxStats(ip::TAG_SECURE_VM), c1 = ip::wxStats(ip::TAG_CACHE);
 		std::string hist = hs[0]->json();
 		if (s1.wxViolations != s0.wxViolations || c1.wxViolations != c0.wxViolations) R.violation(std::string("C16:monitor:write-and-exec-requested:") + (s1.wxViolations != s0.wxViolations ? "secure-vm" : "cache"), "{\"first_event\":" + jsonStr(ip::firstWxViolation()) + ",\"history\":" + hist + "}");
-		for (auto& hp : hs) { if (!hp->rwxSeen.empty()) R.violation("C16:maps:rwx-mapping-present-at-api-boundary", "{\"maps_line\":" + jsonStr(hp->rwxSeen) + ",\"history\":" + hp->json() + "}"); R.count("hashes", hp->hashes); R.count("maps_snapshots", hp->snaps); }
+		for (auto& hp : hs) { if (!hp->rwxSeen.empty()) R.violation("C16:maps:rwx-mapping-present-at-api-boundary", "{\"maps_line\":" + jsonStr(hp->rwxSeen) + ",\"history\":" + hp->json() + "}"); R.count("hashes", hp->hashes); R.count("maps_snapshots", hp->snaps); R.count("secure_full_memory_vms", hp->fullVms); }
 		R.count("secure_vm_protection_events", s1.protEvents - s0.protEvents); R.count("secure_vm_rw_to_rx", s1.rwToRx - s0.rwToRx); R.count("secure_vm_rx_to_rw", s1.rxToRw - s0.rxToRw);
 		R.count("cache_protection_events", c1.protEvents - c0.protEvents); R.count("cache_rw_to_rx", c1.rwToRx - c0.rwToRx);
 		R.count("histories"); R.evaluation();
@@ -101,5 +116,6 @@ RXV_SUBCOMMAND(c16) {
 		ip::clearEvents();
 		R.clearCase();
 	}
+	if (dataset) api::releaseDataset(dataset);
 	return 0;
 }
